@@ -10,14 +10,15 @@ Definition agree_on (ks : list key) (d1 d2 : db) : bool := forallb (fun k => opt
 Record step_case := mkSC {
   s_before : ldb; s_after : ldb; s_op : cop;
   s_syncs : N;            (* commit records appended to the write-ahead log during the step = durable writes *)
-  s_impl_ok : bool }.
+  s_impl_ok : bool;
+  s_payload : list N }.   (* IDs of the blocks that have a payload (from their headers) *)
 
 Definition check_step (c : step_case) : N :=
   let ks := map fst (s_before c) ++ map fst (s_after c) in
   let acts := actions_of (s_op c) in
   let pred := durable_after (lget (s_before c)) acts in
   let agree_model := agree_on ks pred (lget (s_after c)) && (N.of_nat (length (writes acts)) =? s_syncs c) in
-  let agree_spec := (s_syncs c <=? 1) && consistent_b (s_after c)
+  let agree_spec := (s_syncs c <=? 1) && consistent2_b (s_payload c) (s_after c)
                     && (if s_impl_ok c then true else agree_on ks (lget (s_before c)) (lget (s_after c)) && (s_syncs c =? 0)) in
   code agree_model agree_spec.
 
@@ -27,7 +28,8 @@ Record crash_case := mkCC {
   c_reopen_ok : bool; c_next_ok : bool;       (* the node restarted, and accepted a valid successor of its tip *)
   c_j : N; c_syncs : N;                       (* syncs that reached the disk / syncs the step issued *)
   c_first_wal : N;                            (* position of the first sync of the write-ahead log among them (0: none) *)
-  c_restore : option (N * N) }.               (* restore from the temp table: (height, id) of the block being restored *)
+  c_restore : option (N * N);
+  c_payload : list N }.               (* restore from the temp table: (height, id) of the block being restored *)
 
 Definition check_crash (c : crash_case) : N :=
   let ks := map fst (c_before c) ++ map fst (c_after c) ++ map fst (c_recovered c) in
@@ -40,6 +42,6 @@ Definition check_crash (c : crash_case) : N :=
                      else if c_syncs c <=? c_j c then ra && c_eq_after c else rb || ra in
   (* first start: an empty data directory is a legitimate "before" *)
   let empty_start := match c_recovered c, c_before c with [], [] => true | _, _ => false end in
-  let agree_spec := c_reopen_ok c && (empty_start || consistent_b (c_recovered c)) && (c_eq_before c || c_eq_after c) && (rb || ra) && c_next_ok c
+  let agree_spec := c_reopen_ok c && (empty_start || consistent2_b (c_payload c) (c_recovered c)) && (c_eq_before c || c_eq_after c) && (rb || ra) && c_next_ok c
                     && match c_restore c with Some (h, id) => restore_safe_b (c_recovered c) h id | None => true end in
   code agree_model agree_spec.
